@@ -34,6 +34,13 @@ def dense_family():
         out.append(("dense.c", h + ch + func))
         out.append(("dense.c", h + func + ch))
         out.append(("dense.c", h + func.replace("\treturn", "\t" + ch + "return")))
+    # line splices right after an unterminated literal / at the end of a line that is followed by an empty line, with
+    # a diagnostic on the last line of the file: a line counter that runs ahead shows as a position past the file
+    hh = header42.header_text("dense.h") + "\n"
+    for cont in ("\\\n\n", "??/\n\n", "\\\n\\\n\n"):
+        out.append(("dense.h", hh + "#ifndef DENSE_H\n# define DENSE_H\n\n# define MSG don't " + cont + "int\tft_v(int n);\n\n#endif\n\n"))
+        out.append(("dense.c", h + "char\tg_c = 'a " + cont + "int\tmain(void)\n{\n\treturn (0);\n}\n\n"))
+        out.append(("dense.c", h + "char\t*g_s = \"abc " + cont + "int\tmain(void)\n{\n\treturn (0); \n}"))
     # characters that some line-splitting routines take for line breaks (form feed, vertical tab, FS/GS/RS, NEL, LS, PS)
     # inside comments and strings, before an over-long line close to the end of the file
     for ch in ("\f", "\v", "\x1c", "\x1d", "\x1e", "\x85", "\u2028", "\u2029", "\r"):
